@@ -14,13 +14,13 @@ def consts(groups=ALLG, **kw):
     return d
 
 
-def mc(cs, what, expect=None, timeout=900):
+def mc(cs, what, expect=None, timeout=900, simulate=None, depth=None, seed=None):
     hist = cs["WithHist"] == "TRUE"
     invs, props = INV + (["Emit"] if hist else []), PROPS
     if expect:
         invs, props = ([expect], []) if expect in INV else ([], [expect])
     r = C.run_tlc_wrapped("Entities", cs, dict(spec="Spec", invariants=invs, properties=props, view=None if hist else "View"),
-                          workers=1 if hist else C.NCPU, timeout=timeout)
+                          workers=1 if hist else C.NCPU, timeout=timeout, simulate=simulate, depth=depth, seed=seed)
     if expect:
         if expect not in r.violated:
             raise C.MachineryError(f"negative control {what}: TLC no longer refutes {expect} (violated={r.violated})\n{r.tail[-600:]}")
